@@ -40,7 +40,7 @@ def run(sel, quiet=False):
             for prop in m["props"]:
                 if sel and not (m["id"] in sel or prop in sel):
                     continue
-                env = dict(os.environ, VERIF_REPO=scr, VERIF_EVIDENCE_DIR="/tmp/verif-mut-evidence", VERIF_NO_REPLAY="1", VERIF_TIER="quick")
+                env = dict(os.environ, VERIF_REPO=scr, VERIF_EVIDENCE_DIR=scr + "/.verif-evidence", VERIF_BUILD_DIR=scr + "/.verif-build", VERIF_NO_REPLAY="1", VERIF_TIER="quick")
                 r = subprocess.run([os.path.join(VERIF, "check"), prop, "--tier", "quick"], capture_output=True, text=True, env=env)
                 want = {"violation": 1, "ok": 0, "undecided": 2}[m["expect"]]
                 lab = [l for l in r.stdout.split("\n") if l.startswith("VIOLATION")][:1]
